@@ -13,8 +13,8 @@ ID = 'C03'
 CRATES = ['jj-core']
 NATIVE = 'c03'
 BOUNDS = {
-    'quick': '(a) 1..3 matched regions x 2..3 inputs, all offsets 64-bit symbolic; (c) by_line on 2 inputs of <=2 lines (1 symbolic byte per line, with/without final newline), 3 inputs of 1 line; by_word/diff() on 2 inputs of <=2 symbolic bytes',
-    'thorough': '(a) up to 4 regions x 3 inputs; (c) by_line up to 3+2 lines and 3 inputs x 2 lines; by_word/diff() on 2 inputs of <=3 bytes',
+    'quick': '(a) 1..3 matched regions x 2..3 inputs, all offsets 64-bit symbolic; (c) by_line on 2 inputs of <=2 lines (1 symbolic byte per line, with/without final newline), 3 inputs of 1 line; by_word/diff()/unrefined on 2 inputs of 1+1, 2+1, 1+2 fully symbolic bytes',
+    'thorough': '(a) up to 4 regions x 3 inputs; (c) by_line up to 3+2 lines and 3 inputs x 2 lines; by_word/diff()/unrefined on 2 inputs up to 3+2 bytes',
 }
 ASSUMPTIONS = [
     '(a) state invariant assumed for unchanged_regions: sorted, non-overlapping per input, empty sentinel first and last, every matched region non-empty on every side (tokens are non-empty)',
@@ -42,7 +42,7 @@ def jobs(tier):
     for i, sh in enumerate(line_shapes):
         n = sum(len(x) for x in sh)
         out.append(dict(name='c-by_line-' + '_'.join(''.join(f'{n_}{"n" if nl else "x"}' for n_, nl in inp) or 'e' for inp in sh), what='c', api='by_line', shape=sh, rung=1 if n <= 4 else 2, weight=5 ** n))
-    byte_shapes = [(1, 1), (2, 1), (1, 2), (2, 2)] + ([(3, 2), (2, 3), (3, 3)] if tier == 'thorough' else [])
+    byte_shapes = [(1, 1), (2, 1), (1, 2)] + ([(2, 2), (3, 1), (1, 3), (3, 2), (2, 3)] if tier == 'thorough' else [])
     for api in ('by_word', 'diff', 'unrefined'):
         for sh in byte_shapes:
             out.append(dict(name=f'c-{api}-bytes' + '_'.join(map(str, sh)), what='c', api=api, shape=[[(k, False)] for k in sh], rung=2 if sum(sh) <= 3 else 3, weight=8 ** sum(sh)))
@@ -153,8 +153,6 @@ def job_c(ix, job):
             slices = hunks
         yield 'no hunk is empty on every side', all(any(len(s) > 0 for s in sl) for k, sl in slices)
         yield 'matching hunks are equal on all sides', zand([same_bytes(sl[0], s) for k, sl in slices if k == 'Matching' for s in sl[1:]])
-        if len(inputs) == 2 and mode == 'ranges':
-            yield 'inputs that are equal produce a single matching hunk', z3.Implies(same_bytes(inputs[0], inputs[1]), zbool(len(hunks) <= 1 and all(k == 'Matching' for k, _ in hunks)))
     def witness(m, k, out):
         inp = dict(api=api, inputs=[[mval(m, b) for b in bs] for bs in inputs])
         if k != 'ok': return dict(input=inp, expect=None)
@@ -184,7 +182,7 @@ def determinism(res, syms):
     oks = [(out, pc) for kind, out, pc in results if kind == 'ok']
     def key(out): return repr(out)
     seed = z3.Int('hash_seed'); seed2 = z3.Int('hash_seed__2')
-    fmap = [(f, z3.Function(f.name() + '__2', *[f.domain(i) for i in range(f.arity())], f.range())) for f in _hash_fns.values()]
+    fmap = [(f, z3.Function(f.name() + '__2', *[f.domain(i) for i in range(f.arity())], f.range())(*[z3.Var(i, f.domain(i)) for i in range(f.arity())])) for f in _hash_fns.values()]
     for (o1, p1), (o2, p2) in itertools.combinations(oks, 2):
         if key(o1) == key(o2): continue
         res.obligations += 1
